@@ -115,6 +115,8 @@ def format_value(ex, val, spec, conversion=-1):
     if isinstance(val, FloatQ) or (isinstance(val, Fraction) and not isinstance(val, int)):
         f = float(val)
         return format(f, spec)
+    if isinstance(val, int) and not isinstance(val, bool) and spec == "02d" and val >= 1:
+        return ColDigitsV(val)
     if isinstance(val, (int, float, str)) and not isinstance(val, Sym):
         try:
             return format(val, spec)
@@ -136,6 +138,9 @@ def format_value(ex, val, spec, conversion=-1):
         if val.ty == "int":
             if spec in ("", "d"):
                 return Sym(istr(ex, val.t), "str")
+            if spec == "02d":
+                used("format(int,'02d') of a column number: its digits, at least two")
+                return ColDigitsV(val.t)
             raise Unsupported(f"format spec {spec!r} on symbolic int")
         if val.ty == "real":
             if spec == ".2f":
@@ -164,6 +169,14 @@ class Fmt02d:
 
 def join_str_parts(ex, parts):
     """Concatenate string pieces (python str / Sym str / abstract well strings)."""
+    norm = []
+    for p in parts:
+        if isinstance(p, ColDigitsV) and isinstance(p.c, int):
+            p = f"{p.c:02d}"
+        elif isinstance(p, RowLetterV) and isinstance(p.r, int):
+            p = ops.ROW_LETTERS[p.r]
+        norm.append(p)
+    parts = norm
     flat = []
     for p in parts:
         if isinstance(p, str):
@@ -182,6 +195,10 @@ def join_str_parts(ex, parts):
     # well-id pattern: row letter + two-digit column
     if len(flat) == 2 and isinstance(flat[0], RowLetterV) and isinstance(flat[1], ColDigitsV):
         return WellV(flat[0].r, flat[1].c)
+    if len(flat) == 2 and isinstance(flat[0], str) and len(flat[0]) == 1 and flat[0] in ops.ROW_LETTERS and isinstance(flat[1], ColDigitsV):
+        return WellV(ops.ROW_LETTERS.index(flat[0]), flat[1].c)
+    if len(flat) == 2 and isinstance(flat[0], RowLetterV) and isinstance(flat[1], str) and flat[1].isdigit() and len(flat[1]) >= 2:
+        return WellV(flat[0].r, int(flat[1]))
     ts = []
     for p in flat:
         if isinstance(p, str):
@@ -1160,7 +1177,7 @@ BUILTINS = {
     "numpy.isnan": np_isnan,
     "numpy.isfinite": np_isfinite,
     "numpy.array": np_array,
-    "numpy.asarray": np_array,
+    "numpy.asarray": lambda ex, v, dtype=None, **kw: (v if ((isinstance(v, SeqV) and v.kind == "array") or isinstance(v, Arr2V)) else np_array(ex, v, dtype, **kw)),
     "numpy.atleast_1d": np_atleast_1d,
     "numpy.repeat": np_repeat,
     "numpy.sum": np_sum,
@@ -1268,6 +1285,8 @@ def seq_method(ex, v: SeqV, name, args, kw):
         v.segs = []
         return None
     if name == "astype":
+        if kw.get("copy") is False:
+            return v
         return v.copy()
     if name == "tolist":
         used("ndarray.tolist(): same elements as a list")
@@ -1343,6 +1362,9 @@ def reshape(ex, v, args, kw):
     order = kw.get("order", "C")
     if len(dims) == 2:
         R, Cn = _dim_any(dims[0]), _dim_any(dims[1])
+        if isinstance(v, Arr2V) and order == "C" and ops._same_dim(ex, R, v.rows) and ops._same_dim(ex, Cn, v.cols):
+            used("ndarray.reshape to the array's own shape: a view of the same buffer (modelled as the same array object)")
+            return v
         if isinstance(v, Arr2V):
             flat = flatten(ex, v, "C")
         elif isinstance(v, Arr0V):
@@ -1389,6 +1411,9 @@ def arr2_method(ex, a: Arr2V, name, args, kw):
     if name in ("flatten", "ravel"):
         order = args[0] if args else kw.get("order", "C")
         return flatten(ex, a, order)
+    if name == "astype" and kw.get("copy") is False:
+        used("ndarray.astype(t, copy=False): may return the array itself (pessimistic: it does)")
+        return a
     if name in ("copy", "astype"):
         return a.copy()
     if name == "reshape":
@@ -1694,6 +1719,44 @@ def regex_method(ex, rx: RegexV, name, args, kw):
 # ----------------------------------------------------------------------------- objects of library classes
 
 
+class SuperV:
+    def __init__(self, obj, cls, mi):
+        self.obj, self.cls, self.mi = obj, cls, mi
+
+
+def value_attr(ex, v, attr):
+    """attributes (not methods) of modelled library values"""
+    from .engine import BoundV, ClassV, HostFn
+
+    if isinstance(v, SuperV):
+        cv = v.obj.fields.get("__class__") if isinstance(v.obj, Obj) else None
+        if not isinstance(cv, ClassV):
+            raise Unsupported("super() outside a method of a repo class")
+        mro = ex.class_mro(cv)
+        names = [c.name if isinstance(c, ClassV) else c for c in mro]
+        start = names.index(v.cls) + 1 if v.cls in names else len(mro)
+        for c in mro[start:]:
+            if isinstance(c, ClassV):
+                qn = f"{c.name}.{attr}"
+                if qn in c.mi.functions:
+                    from .engine import FuncV
+
+                    return BoundV(v.obj, FuncV(c.mi, qn, c.mi.functions[qn], c.name))
+        if attr == "__init__":
+            ex.w.dropped.add("super().__init__() of object/list")
+            return HostFn(lambda ex_, *a, **k: None, "object.__init__")
+        raise Unsupported(f"super().{attr}")
+    if attr == "shape":
+        if isinstance(v, Arr0V):
+            return SeqV.of("tuple", [])
+        if isinstance(v, Arr2V):
+            return SeqV.of("tuple", [_symint(v.rows), _symint(v.cols)])
+        if isinstance(v, SeqV) and v.kind == "array":
+            n = ops.seq_len(v)
+            return SeqV.of("tuple", [n if isinstance(n, int) else Sym(n, "int")])
+    return NOATTR
+
+
 def obj_attr(ex, o: Obj, attr):
     if o.cls == "Path":
         if attr == "name":
@@ -1885,6 +1948,43 @@ def dict_comprehension(ex, node, fr):
     same = zbool(unwrap_bool(ops.equals(ex, ka, kb)))
     ex.p.check("dictcomp-keys-injective", z3.Implies(z3.And(rng, same), z3.And(*[x == y for x, y in zip(a, b)])),
                {"kind": "welldef"})
+
+    # closed-form inverse for well-id keys WellV(a + k1, b + k2) (the only symbolic dict keys the repo builds)
+    inv = None
+    if isinstance(ka, WellV) and len(gens) == 2:
+        comps = [term(ka.r, "int"), term(ka.c, "int")]
+        sol = {}
+        for which, ct in enumerate(comps):
+            for vi, x in enumerate(a):
+                d = z3.simplify(ct - x)
+                if z3.is_int_value(d) and vi not in sol:
+                    sol[vi] = (which, d.as_long())
+                    break
+        if len(sol) == 2:
+            inv = sol
+
+    def invert(key):
+        key = ops.to_abstract(key)
+        if not isinstance(key, WellV):
+            return None
+        kc = [term(key.r, "int"), term(key.c, "int")]
+        return [ops.lift_raw(z3.simplify(kc[inv[vi][0]] - inv[vi][1])) for vi in range(2)]
+
+    if inv is not None:
+        used("dict comprehension with well-id keys: lookup by the closed-form inverse of the key expression")
+
+        def dom_inv(key):
+            js = invert(key)
+            if js is None:
+                return False
+            return mk_bool(z3.And(*[z3.And(term(x, "int") >= 0, term(x, "int") < term(n, "int")) for x, n in zip(js, bounds)]))
+
+        def fn_inv(key):
+            js = invert(key)
+            _, vv = bind([x if isinstance(x, (int, Sym)) else Sym(x, "int") for x in js])
+            return vv
+
+        return MapV(dom=dom_inv, fn=fn_inv)
 
     def dom(key):
         js = [z3.Int(ex.p.fresh_name("dj")) for _ in gens]
